@@ -85,7 +85,7 @@ pub struct Cfg {
 }
 
 const FAMILIES: [&str; 4] = ["udp-fan-in+broadcast", "tcp-echo", "select-spawn", "fs+io_uring"];
-const SCRIPTS: [&str; 5] = ["none", "partition-repair", "hold-release", "crash-bounce", "bounce-twice+oneway"];
+const SCRIPTS: [&str; 6] = ["none", "partition-repair", "hold-release", "crash-bounce", "bounce-twice+oneway", "hold+manual-delivery"];
 
 pub fn cfg_from(ch: &mut Chooser, thorough: bool) -> Cfg {
     let family = ch.choose("program_family", FAMILIES.len());
@@ -453,6 +453,25 @@ pub fn run_trace(cfg: &Cfg, real_delay: bool) -> Vec<String> {
                 (4, 9) if n > 1 => sim.partition_oneway("h0", last.as_str()),
                 (4, 15) => sim.bounce(last.as_str()),
                 (4, 20) if n > 1 => sim.repair_oneway("h0", last.as_str()),
+                (5, 4) if n > 1 => sim.hold("h0", last.as_str()),
+                (5, 6) | (5, 17) | (5, 18) if n > 1 => {
+                    // deliver the oldest held message by hand
+                    sim.links(|links| {
+                        for link in links {
+                            if let Some(sent) = link.into_iter().next() {
+                                sent.deliver();
+                            }
+                        }
+                    });
+                }
+                (5, 20) if n > 1 => {
+                    sim.links(|links| {
+                        for link in links {
+                            link.deliver_all();
+                        }
+                    });
+                }
+                (5, 22) if n > 1 => sim.release("h0", last.as_str()),
                 _ => {}
             }
             let r = vx_core::catch(|| sim.step());
